@@ -84,5 +84,10 @@ Stuck == (\E t \in Threads : ~Done(t)) /\ ~(ENABLED Next)
 (* continues so that ALL deadlocking assignments are found, not the first   *)
 Report == Stuck => PrintT(<<"DEADLOCK", [t \in Threads |-> prog[t]], [t \in Threads |-> pc[t]]>>)
 
+(* the property as stated - "every request eventually completes" - under weak fairness of every thread (the runtime keeps *)
+(* scheduling a handler that can move).  Programs are finite, so this fails exactly when some schedule ends stuck.        *)
+FairSpec == Spec /\ \A t \in Threads : WF_vars(Step(t))
+Termination == <>(\A t \in Threads : Done(t))
+
 TypeOK == \A l \in LockSet : writer[l] \in Threads \cup {"none"}
 =============================================================================
